@@ -365,7 +365,12 @@ func vSmallClassifier(ci int, t float64) *Classifier {
 			sb.WriteString(vFillerWord(i))
 			sb.WriteByte(' ')
 		}
-		c.AddContent("License", "Filler", "filler.txt", []byte(sb.String()))
+		// Normalize interns every word of its input in the classifier's dictionary without adding a
+		// document: the dictionary grows, the cost of Match does not
+		c.Normalize([]byte(sb.String()))
+		if len(c.dict.words) < vSmallFiller {
+			panic("filler words were not interned")
+		}
 	}
 	for j, sh := range vSmallCorpusShapes[ci] {
 		c.AddContent("License", fmt.Sprintf("D%d", j), "license.txt", []byte(strings.Join(vShapeWords(sh), " ")))
